@@ -41,23 +41,27 @@ Section Lib.
 Variable lib : list byte -> list byte.
 Hypothesis Hlib : lib_contract lib.
 
-Theorem seed_spec m p : xsafe m = true -> xsafe p = true -> MnemonicToSeed lib m p = bip39_seed m p.
+Theorem seed_spec m p : utf8_valid m = true -> utf8_valid p = true -> xsafe m = true -> xsafe p = true ->
+  MnemonicToSeed lib m p = bip39_seed m p.
 Proof.
-  intros Xm Xp. unfold MnemonicToSeed, bip39_seed.
+  intros Vm Vp Xm Xp. unfold MnemonicToSeed, bip39_seed.
   destruct seed_literals as [E1 [E2 [E3 _]]]. rewrite E1, E2, E3.
-  rewrite (LC1 _ Hlib m Xm). rewrite (LC1 _ Hlib (mnemonic_salt ++ p)) by (rewrite xsafe_prefix; exact Xp).
+  rewrite (LC1 _ Hlib m Vm Xm).
+  rewrite (LC1 _ Hlib (mnemonic_salt ++ p)) by (first [apply utf8_valid_app; [exact (proj1 prefix_facts)|exact Vp]|rewrite xsafe_prefix; exact Xp]).
   rewrite nfkd_prefix. reflexivity.
 Qed.
 
 Lemma xsafe_same_nfkd a b : nfkd a = nfkd b -> xsafe a = xsafe b.
 Proof. intros E. unfold xsafe. rewrite E. reflexivity. Qed.
 
-Theorem seed_same_nfkd m1 p1 m2 p2 : nfkd m1 = nfkd m2 -> nfkd p1 = nfkd p2 -> xsafe m1 = true -> xsafe p1 = true ->
+Theorem seed_same_nfkd m1 p1 m2 p2 :
+  utf8_valid m1 = true -> utf8_valid p1 = true -> utf8_valid m2 = true -> utf8_valid p2 = true ->
+  nfkd m1 = nfkd m2 -> nfkd p1 = nfkd p2 -> xsafe m1 = true -> xsafe p1 = true ->
   MnemonicToSeed lib m1 p1 = MnemonicToSeed lib m2 p2.
 Proof.
-  intros Em Ep Xm Xp.
-  rewrite (seed_spec m1 p1 Xm Xp).
-  rewrite (seed_spec m2 p2) by (rewrite <- ?(xsafe_same_nfkd _ _ Em), <- ?(xsafe_same_nfkd _ _ Ep); assumption).
+  intros V1 W1 V2 W2 Em Ep Xm Xp.
+  rewrite (seed_spec m1 p1 V1 W1 Xm Xp).
+  rewrite (seed_spec m2 p2 V2 W2) by (rewrite <- ?(xsafe_same_nfkd _ _ Em), <- ?(xsafe_same_nfkd _ _ Ep); assumption).
   unfold bip39_seed. rewrite Em, Ep. reflexivity.
 Qed.
 End Lib.
